@@ -7,6 +7,9 @@ Open Scope N_scope.
 (** long byte strings are printed by the observers as [hcat [h "…"; h "…"]] *)
 Definition hcat (l : list bytes) : bytes := List.concat l.
 
+Definition blen (b : bytes) : N := N.of_nat (length b).
+Definition zlen {A} (l : list A) : Z := Z.of_nat (length l).
+
 (** two's complement conversions between Go's int64 / uint64 and Z / N *)
 Definition two63 : Z := 9223372036854775808%Z.
 Definition two64 : Z := 18446744073709551616%Z.
